@@ -119,6 +119,7 @@ type Exec struct {
 	frameGhosts   []string
 	inlineCount   map[string]int
 	exemptions    []string
+	knownNames    map[string]bool
 	reachBackend  map[string]bool
 	reachMutating map[string]bool
 	maxOps        int
@@ -717,15 +718,27 @@ func (ex *Exec) checkDecreases(fr *Frame, st *State, li *LoopInfo, entry bool) {
 func (ex *Exec) havocLoop(fr *Frame, st *State, li *LoopInfo) {
 	fi := ex.info(fr.fn)
 	heap := false
+	sliceStore := false
 	ghosts := map[string]bool{}
 	for b := range li.Blocks {
 		for _, ins := range b.Instrs {
 			switch x := ins.(type) {
 			case *ssa.Store:
 				root := addrRoot(x.Addr)
+				if ia, ok := root.(*ssa.IndexAddr); ok {
+					if _, isSlice := ia.X.Type().Underlying().(*types.Slice); isSlice {
+						sliceStore = true
+					}
+				}
 				if a, ok := root.(*ssa.Alloc); ok {
 					if p, ok := fr.env[a].(*Ptr); ok && p.Cell != nil {
-						st.cells[p.Cell] = ex.freshVal(st, p.Cell.T, p.Cell.Name)
+						nv := ex.freshVal(st, p.Cell.T, p.Cell.Name)
+						st.cells[p.Cell] = nv
+						if t, ok := nv.(*Term); ok && p.Cell.Name == "rangeindex" && isBV(t.Sort) {
+							// the hidden index of a range loop starts at -1 and only grows (bounds for free)
+							st.Assume(app(SBool, "bvsge", t, BVInt(-1, bvBits(t.Sort), true)))
+							st.Assume(app(SBool, "bvsle", t, BVInt(1<<40, bvBits(t.Sort), true)))
+						}
 					}
 				} else {
 					heap = true
@@ -743,8 +756,8 @@ func (ex *Exec) havocLoop(fr *Frame, st *State, li *LoopInfo) {
 			}
 		}
 	}
-	if heap {
-		ex.havocHeap(st)
+	if heap || sliceStore {
+		ex.havocHeapX(st, sliceStore)
 		// cells whose address escapes may be written by callees
 		for a := range fi.Escaping {
 			if p, ok := fr.env[a].(*Ptr); ok && p.Cell != nil {
@@ -837,6 +850,9 @@ func (ex *Exec) fnEffects(fn *ssa.Function) *Effects {
 	if c := ex.activeContract(funcKey(fn)); c != nil {
 		ce := ex.contractEffects(c)
 		*e = *ce
+		return e
+	}
+	if ex.knownPure(funcKey(fn)) {
 		return e
 	}
 	if !isRepoFunc(fn) || len(fn.Blocks) == 0 {
